@@ -616,7 +616,9 @@ def printValue (env : Env) : Nat → PP → Val → Nat → Nat → Bool → Res
         (printPairs env fuel p keys vals verb depth ifaceK ifaceV ro true).bind fun p =>
           .ok (p.wb (if p.f.sharpV then 0x7D else 0x5D))
     | .ptrTo _ to =>
-      if depth = 0 then printValue env fuel (p.wb 0x26) to verb (depth + 1) ro
+      -- `p.printValue(a, verb, depth+1)`: the pointee goes through the depth>0 prologue
+      -- (by-type special cases, registered type, SafeValue, methods) like any slot
+      if depth = 0 then printSlot env fuel (p.wb 0x26) to verb (depth + 1) false ro
       else .unsupported
     | .safeW _ => .unsupported
     | .unsafeW _ => .unsupported
